@@ -75,7 +75,7 @@ impl<T> Trace<T> {
     }
 
     pub fn get_routes_from_traces(traces: &[Trace<T>]) -> Vec<Arc<Route<T>>> {
-        let mut routes = Vec::new();
+        let mut routes: Vec<Arc<Route<T>>> = Vec::new();
 
         for trace in traces {
             if let TraceInfo::Storage { routes: routes_stored } = &trace.info {
@@ -87,6 +87,16 @@ impl<T> Trace<T> {
             }
         }
 
-        routes
+        // A route with several ip constraints appears under each matching one: keep it once,
+        // as matching does
+        let mut unique_routes: Vec<Arc<Route<T>>> = Vec::new();
+
+        for route in routes {
+            if !unique_routes.iter().any(|existing| existing.id() == route.id()) {
+                unique_routes.push(route);
+            }
+        }
+
+        unique_routes
     }
 }
